@@ -271,7 +271,7 @@ def run(plan):
                     return
 
     try:
-        w.run(main)
+        w.run(s.with_bystander(main, res))
     except (SimDeadlock, SimStepLimit) as e:
         res.fail(f"liveness: {type(e).__name__}", str(e))
     res.take(w)
@@ -356,6 +356,8 @@ def gen(j, rng):
                 {"op": "apply"}, {"op": "idle", "d": 4.0}, {"op": "refresh"}]
     ops += [{"op": "apply"}, {"op": "refresh"}, {"op": "apply"}]
     cfg = {"version": rng.choice([2, 2, 3]), "caps_pages": [[profile_caps(p), None]], "props": store}
+    if rng.random() < 0.15:
+        cfg["bystander"] = {"version": rng.choice([2, 3]), "period": rng.choice([0.11, 0.7]), "max_rounds": 25}
     return {"config": cfg, "profile": p, "ops": ops}
 
 
